@@ -65,7 +65,7 @@ class InverseGamma(Distribution):
             raise NotImplementedError(f"Gradient is not implemented for {self} with conditioning variables {self.get_conditioning_variables()}")
         
         #Compute the gradient
-        if np.any(val <= self.location):
+        if np.any(val <= self.location) or np.any(self.shape <= 0) or np.any(self.scale <= 0):
             return val*np.nan
         else:
             return (-self.shape-1)/(val - self.location) +\
